@@ -142,6 +142,17 @@ fn cell(idx: u64, rec: &mut Rec) {
             }
         )
     });
+    if idx % 13 == 7 && matches!(r, Ok((_, Some(_)))) {
+        // the caller looks again before advancing and finds nothing (no input, the start of what follows):
+        // what the head decided stands
+        rec.call();
+        let again1 = f.try_response(b"").map(|(n, r)| (n, r.is_some()));
+        let again2 = f.try_response(b"HTTP/1.").map(|(n, r)| (n, r.is_some()));
+        if again1 != Ok((0, false)) || again2 != Ok((0, false)) {
+            return rec.fail("C06/look-after-the-head", format!("looks after the deciding head: {:?}, {:?}", again1, again2));
+        }
+        rec.cov("looked-again-after-the-head");
+    }
     let desc = || format!("{} status {} {} CL={:?} TE={:?}", method, status, if http10 { "HTTP/1.0" } else { "HTTP/1.1" }, cl.map(esc), te.map(esc));
     match &exp {
         FrameExp::Error(why) => {
